@@ -29,6 +29,10 @@
      DelayBeforeStart    c1ead5d  SUBMIT_BATCH delays the rest of the batch before starting its first task
      CancelInPlace       c553de0  _handle_cancel removes delayed tasks from the list itself (FALSE: rebinds a filtered copy)
      ForgetDiscarded     65b9d36  a cancelled task discarded from the ready queue is also forgotten in _tasks
+     DropLateBoxes       (repair proposed by this work, /tmp/fixes/C12-cancel-while-executing.diff; FALSE = the code without it)
+                                  a task that was cancelled while it was executing drops the mailboxes it owns as soon as its
+                                  step is over (Worker._drop_mailboxes_if_cancelled); _handle_cancel forgets a task BEFORE it
+                                  drops the task's mailboxes.  The harness picks the value that matches the tree under test.
 
    With Record = TRUE every action appends its name, thread and the projection of the post-state to hist; complete
    behaviours are printed by Dump and replayed into the real Worker class (harness/rtfine.py). *)
@@ -38,7 +42,7 @@ CONSTANTS Prog,               \* function name -> sequence of instructions (same
           RootFn,             \* the compilation's root task runs Prog[RootFn]
           Place,              \* function name -> "L" (runs on this worker) | "R" (runs elsewhere; must be a leaf) | "LR"
           EnvCancelRoot,      \* BOOLEAN: the client may cancel the compilation at any moment
-          MailboxLocked, RegisterIfNotReady, DelayBeforeStart, CancelInPlace, ForgetDiscarded,
+          MailboxLocked, RegisterIfNotReady, DelayBeforeStart, CancelInPlace, ForgetDiscarded, DropLateBoxes,
           Record
 
 Wid == 0
@@ -97,10 +101,13 @@ RemoteOK(d) == Place[d.fn] \in {"R", "LR"}
 IdleHr == [id |-> NoBox, slot |-> 0, ret |-> ""]
 IdleM == [pc |-> "top", addr |-> None, found |-> FALSE, task |-> None, del |-> NoDesc, exc |-> "", list |-> <<>>, ready |-> FALSE]
 IdleI == [pc |-> "recv", msg |-> NoMsg, list |-> <<>>, dl |-> <<>>]
+\* where the main thread is once a body has yielded a future: at the lock of _process_await, or (repaired code) at the test
+\* whether the task was cancelled while it ran
+AwaitPc == IF DropLateBoxes THEN "stepCheck" ELSE "paLock"
 \* the statement a task body reaches next (its next runtime call)
 InsPc(o) == LET ins == Prog[o.fn][o.ipc] IN
             CASE ins[1] = "submit" -> "submit" [] ins[1] = "map" -> "map" [] ins[1] = "cancel" -> "cancel"
-              [] ins[1] = "next" -> "next" [] ins[1] = "await" -> "paLock" [] ins[1] = "ret" -> "complCheck"
+              [] ins[1] = "next" -> "next" [] ins[1] = "await" -> AwaitPc [] ins[1] = "ret" -> "complCheck"
 \* the coroutine of the active task is executing (coro.close() from the other thread raises ValueError, which is ignored)
 RunningPcs == {"submit", "map", "cancel", "next"}
 Release(th, holder) == IF holder = th THEN "none" ELSE holder
@@ -240,6 +247,8 @@ M_gdrLock ==
   /\ Act("M_gdrLock", "main")
 
 Raise(kind) == m' = [m EXCEPT !.pc = "exc", !.exc = kind]
+\* repaired code: the mailboxes a task owns are dropped (Worker._drop_mailboxes_if_cancelled)
+DropOwned(a) == /\ mboxes' = mboxes \ tobj[a].owned /\ box' = DelAll(box, tobj[a].owned)
 
 \* body of _get_desired_result (+ the reset of the await flags at the start of RuntimeTask.step)
 M_gdrBody ==
@@ -264,9 +273,11 @@ M_exc ==
   /\ LET o == tobj[m.task]
          swallowed == \E x \in cancelled : Descends(m.task, o.crumbs, x)
      IN h' = IF swallowed THEN h ELSE [h EXCEPT !.errs = @ \cup {m.exc}, !.sent = Sent("ERROR", 1)]
+  /\ IF DropLateBoxes /\ ~InTasks(m.task) /\ (\E x \in cancelled : Descends(m.task, tobj[m.task].crumbs, x))
+     THEN DropOwned(m.task) ELSE UNCHANGED <<mboxes, box>>
   /\ tobj' = Reap(tobj, tasks, m.task)
   /\ m' = IdleM
-  /\ UNCHANGED <<tasks, delayed, readyq, cancelled, mboxes, box, ctr, receipt, rrHolder, mbHolder, i, hr, envv>>
+  /\ UNCHANGED <<tasks, delayed, readyq, cancelled, ctr, receipt, rrHolder, mbHolder, i, hr, envv>>
   /\ Act("M_exc", "main")
 
 \* `to_return = self.coro.send(send_val)` in RuntimeTask.step: the body runs up to its next runtime call
@@ -329,8 +340,16 @@ M_cancel ==
 M_next ==
   /\ alive /\ m.pc = "next"
   /\ LET o == tobj[m.task] ins == Prog[o.fn][o.ipc] id == o.env[ins[2]] IN
-     IF id \notin mboxes THEN Raise("NextOnDroppedBox") ELSE m' = [m EXCEPT !.pc = "paLock"]
+     IF id \notin mboxes THEN Raise("NextOnDroppedBox") ELSE m' = [m EXCEPT !.pc = AwaitPc]
   /\ UNCHANGED <<shared, i, hr, envv, h>> /\ Act("M_next", "main")
+
+\* repaired code only: `if self._drop_mailboxes_if_cancelled(task): return` right after the step
+M_stepCheck ==
+  /\ alive /\ m.pc = "stepCheck"
+  /\ IF InTasks(m.task) THEN m' = [m EXCEPT !.pc = "paLock"] /\ UNCHANGED <<tobj, mboxes, box>>
+     ELSE DropOwned(m.task) /\ tobj' = Reap(tobj, tasks, m.task) /\ m' = IdleM
+  /\ UNCHANGED <<tasks, delayed, readyq, cancelled, ctr, receipt, rrHolder, mbHolder, i, hr, envv, h>>
+  /\ Act("M_stepCheck", "main")
 
 \* `with self.mailbox_mutex:` in _process_await
 M_paLock ==
@@ -380,14 +399,15 @@ M_paAct ==
 M_complCheck ==
   /\ alive /\ m.pc = "complCheck"
   /\ IF ~InTasks(m.task)
-     THEN /\ tobj' = Reap(tobj, tasks, m.task) /\ m' = IdleM /\ UNCHANGED <<hr, clientRes, h>>
+     THEN /\ IF DropLateBoxes THEN DropOwned(m.task) ELSE UNCHANGED <<mboxes, box>>
+          /\ tobj' = Reap(tobj, tasks, m.task) /\ m' = IdleM /\ UNCHANGED <<hr, clientRes, h>>
      ELSE IF m.task[1] = Wid
      THEN /\ hr' = [hr EXCEPT !["main"] = [id |-> m.task[2], slot |-> m.task[3], ret |-> "complPop"]]
-          /\ m' = [m EXCEPT !.pc = "hrLock"] /\ UNCHANGED <<tobj, clientRes, h>>
+          /\ m' = [m EXCEPT !.pc = "hrLock"] /\ UNCHANGED <<tobj, clientRes, h, mboxes, box>>
      ELSE /\ clientRes' = IF m.task = RootAddr /\ ~rootc THEN 1 ELSE clientRes
           /\ h' = [h EXCEPT !.sent = Sent("RESULT", 1)]
-          /\ m' = [m EXCEPT !.pc = "complPop"] /\ UNCHANGED <<tobj, hr>>
-  /\ UNCHANGED <<tasks, delayed, readyq, cancelled, mboxes, box, ctr, receipt, rrHolder, mbHolder, i, pool, remote, echo, cseen, rootc, alive>>
+          /\ m' = [m EXCEPT !.pc = "complPop"] /\ UNCHANGED <<tobj, hr, mboxes, box>>
+  /\ UNCHANGED <<tasks, delayed, readyq, cancelled, ctr, receipt, rrHolder, mbHolder, i, pool, remote, echo, cseen, rootc, alive>>
   /\ Act("M_complCheck", "main")
 
 \* `self._tasks.pop(...)`; `for mailbox_id in list(owned_mailboxes):`
@@ -609,13 +629,31 @@ I_hcTask ==
   /\ LET a == Head(i.list) rest == Tail(i.list) IN
      /\ IF a \in DOMAIN tobj
         THEN LET o == tobj[a] running == m.task = a /\ m.pc \in RunningPcs IN
-             /\ mboxes' = mboxes \ o.owned /\ box' = DelAll(box, o.owned)
-             /\ tasks' = Without(tasks, a)
-             /\ tobj' = IF m.task = a THEN [tobj EXCEPT ![a].closed = @ \/ ~running] ELSE Del(tobj, a)
+             IF DropLateBoxes
+             THEN \* repaired order: forget the task now, drop its mailboxes in the next step (I_hcBoxes)
+                  /\ tasks' = Without(tasks, a)
+                  /\ tobj' = [tobj EXCEPT ![a].closed = @ \/ ~running]
+                  /\ UNCHANGED <<mboxes, box>>
+             ELSE /\ mboxes' = mboxes \ o.owned /\ box' = DelAll(box, o.owned)
+                  /\ tasks' = Without(tasks, a)
+                  /\ tobj' = IF m.task = a THEN [tobj EXCEPT ![a].closed = @ \/ ~running] ELSE Del(tobj, a)
         ELSE UNCHANGED <<mboxes, box, tasks, tobj>>
-     /\ i' = [i EXCEPT !.pc = IF rest # <<>> THEN "hcTask" ELSE "hcDelayed", !.list = rest]
+     /\ i' = IF DropLateBoxes /\ a \in DOMAIN tobj THEN [i EXCEPT !.pc = "hcBoxes"]
+             ELSE [i EXCEPT !.pc = IF rest # <<>> THEN "hcTask" ELSE "hcDelayed", !.list = rest]
   /\ UNCHANGED <<delayed, readyq, cancelled, ctr, receipt, rrHolder, mbHolder, m, hr, envv, h>>
   /\ Act("I_hcTask", "inc")
+
+\* repaired code only: `for mailbox_id in list(task.owned_mailboxes): self._mailboxes.pop(mailbox_id, None)` after the task was forgotten
+I_hcBoxes ==
+  /\ alive /\ i.pc = "hcBoxes"
+  /\ LET a == Head(i.list) rest == Tail(i.list) IN
+     /\ IF a \in DOMAIN tobj
+        THEN /\ mboxes' = mboxes \ tobj[a].owned /\ box' = DelAll(box, tobj[a].owned)
+             /\ tobj' = IF m.task = a THEN tobj ELSE Del(tobj, a)
+        ELSE UNCHANGED <<mboxes, box, tobj>>
+     /\ i' = [i EXCEPT !.pc = IF rest # <<>> THEN "hcTask" ELSE "hcDelayed", !.list = rest]
+  /\ UNCHANGED <<tasks, delayed, readyq, cancelled, ctr, receipt, rrHolder, mbHolder, m, hr, envv, h>>
+  /\ Act("I_hcBoxes", "inc")
 
 DelayedDescends(d) == Descends(d.addr, d.crumbs, i.msg.addr)
 \* `for t in [t for t in self._delayed_tasks if t.is_descendant_of(addr)]:` (a snapshot of the doomed delayed tasks)
@@ -658,7 +696,7 @@ Halt == ~alive /\ ~Record /\ UNCHANGED vars
 
 MainNext == \/ M_top \/ M_popDelayed \/ M_addDelayed \/ M_putDelayed \/ M_lockRR \/ M_getNowait \/ M_sendWaiting
             \/ M_blockGet \/ M_lookup \/ M_checkCancelled \/ M_checkCrumbs \/ M_gdrLock \/ M_gdrBody \/ M_exc \/ M_resume
-            \/ M_submit \/ M_map \/ M_cancel \/ M_next \/ M_paLock \/ M_paCheck \/ M_paReady \/ M_paAct
+            \/ M_submit \/ M_map \/ M_cancel \/ M_next \/ M_stepCheck \/ M_paLock \/ M_paCheck \/ M_paReady \/ M_paAct
             \/ M_complCheck \/ M_complPop \/ M_complLoop
             \/ HR_lock("main") \/ HR_deposit("main") \/ HR_check("main") \/ HR_wake("main") \/ HR_clear("main")
 IncNext == \/ \E g \in pool : \E S \in SUBSET (1..Len(g.ts)) : I_recvTasks(g, S)
@@ -667,7 +705,7 @@ IncNext == \/ \E g \in pool : \E S \in SUBSET (1..Len(g.ts)) : I_recvTasks(g, S)
            \/ \E a \in echo : I_recvCancel(a)
            \/ I_recvClientCancel
            \/ I_subLock \/ I_subBody \/ I_batLock \/ I_batBody1 \/ I_batBody2
-           \/ I_hcAdd \/ I_hcTask \/ I_hcDelayed \/ I_hcRemove \/ I_hcRebind
+           \/ I_hcAdd \/ I_hcTask \/ I_hcBoxes \/ I_hcDelayed \/ I_hcRemove \/ I_hcRebind
            \/ HR_lock("inc") \/ HR_deposit("inc") \/ HR_check("inc") \/ HR_wake("inc") \/ HR_clear("inc")
            \/ I_shutdown
 EnvNext == \/ \E d \in remote : EnvDrop(d)
@@ -701,6 +739,8 @@ NoStartAfterCancel == h.mustDiscard => m.pc \in {"lookup", "checkCancelled", "ch
 \* (5) nothing is left when everything is over
 \* ... except - a defect of the current code, see NoLateBox - mailboxes that a task created after it was cancelled while running
 NoResidue == Quiescent => tasks = <<>> /\ delayed = <<>> /\ DOMAIN tobj = {} /\ \A id \in mboxes : box[id].late
+\* the repaired code (DropLateBoxes) leaves nothing at all
+NoResidueStrict == Quiescent => tasks = <<>> /\ delayed = <<>> /\ DOMAIN tobj = {} /\ mboxes = {}
 \* KNOWN TO FAIL on the current code whenever a CANCEL is handled while a task it cancels is executing: the task is dropped
 \* from _tasks and its mailboxes are removed, but its body runs on to its next await and the mailboxes it creates on the way
 \* (and the one it parks on) are never removed
